@@ -7,7 +7,9 @@ package main
 import (
 	"bytes"
 	"context"
+	"encoding/json"
 	"fmt"
+	"io/ioutil"
 	"os"
 	"path"
 	"reflect"
@@ -954,6 +956,27 @@ func restartOracle(cs *Case, dir string, texts []string, calls []callRes, ids ma
 			cs.Oracle = v
 		}
 	}
+	// what is persisted: one record per partition, under the canonical line of its set, whatever spelling created it
+	if data, e := ioutil.ReadFile(path.Join(dir, "tindex.dat")); e == nil {
+		var recs map[string]json.RawMessage
+		if json.Unmarshal(data, &recs) == nil {
+			want := map[string]bool{}
+			for _, m := range partMaps {
+				want[lineOf(m)] = true
+			}
+			var bad []string
+			for k := range recs {
+				if !want[k] {
+					bad = append(bad, show(k))
+				}
+			}
+			sort.Strings(bad)
+			if len(bad) > 0 || len(recs) != len(want) {
+				set(&Violation{Class: "identity-index-record-not-canonical", Detail: fmt.Sprintf("history %s: %d partitions, the index file holds %d records; keys that are not the canonical line of a partition's set: %v", showTexts(texts), len(want), len(recs), bad)})
+				return "restart:done"
+			}
+		}
+	}
 	svc := tindex.NewInmemServiceWithConfig(tindex.InMemConfig{WorkingDir: dir})
 	reflect.ValueOf(svc).Elem().FieldByName("Journals").Set(reflect.ValueOf(noJournals{}))
 	var ierr error
@@ -973,6 +996,18 @@ func restartOracle(cs *Case, dir string, texts []string, calls []callRes, ids ma
 				got = show(mapKey(tag.VC08TagMap(ts)))
 			}
 			set(&Violation{Class: "identity-tags-changed-by-restart", Detail: fmt.Sprintf("history %s: partition %d was created for %s, after a restart its tags are %s", showTexts(texts), id, show(mapKey(partMaps[id])), got)})
+			return "restart:done"
+		}
+	}
+	// every partition is visited exactly once
+	if vo := doVisit(svc, nil, ids); vo.kind == "ok" {
+		var all []int
+		for _, id := range ids {
+			all = append(all, id)
+		}
+		sort.Ints(all)
+		if fmt.Sprint(vo.ids) != fmt.Sprint(all) {
+			set(&Violation{Class: "identity-records-per-partition-after-restart", Detail: fmt.Sprintf("history %s: after a restart a visit without condition gives the partitions %v, there are %v", showTexts(texts), vo.ids, all)})
 			return "restart:done"
 		}
 	}
